@@ -282,7 +282,8 @@ theorem handleThrow_tries_irrel (ex : Option Val) (fs : List TryFrame) (vm : VM)
 
 /-- an uncatchable error skips every frame, calls no return(), and leaves run() -/
 theorem handleThrow_none (fs : List TryFrame) (vm : VM) (hi : vm.iters = []) :
-    (VM.handleThrow none fs vm).halted = some Compl.fatal ∧ (VM.handleThrow none fs vm).log = vm.log := by
+    ((VM.handleThrow none fs vm).halted = some Compl.fatal ∧ (VM.handleThrow none fs vm).tries = [] ∧
+      (VM.handleThrow none fs vm).iters = []) ∧ (VM.handleThrow none fs vm).log = vm.log := by
   induction fs with
   | nil => simp [VM.handleThrow, VM.closeIters, VM.closeIters.go, hi]
   | cons tf rest ih => simpa [VM.handleThrow] using ih
@@ -1604,7 +1605,8 @@ theorem sim (s : Stmt) : ∀ (cur : Nat) (lab : Option Label) (ls : List Label) 
       rw [VM.throwV]
       simp only [VM.out] at hT ⊢
       rw [hT.2]; simp [exec]
-    · show (VM.throwV none (σ.out Ev.fatal)).halted = _
+    · show (VM.throwV none (σ.out Ev.fatal)).halted = _ ∧ (VM.throwV none (σ.out Ev.fatal)).tries = [] ∧
+        (VM.throwV none (σ.out Ev.fatal)).iters = []
       rw [VM.throwV]
       simp only [VM.out] at hT ⊢
       exact hT.1
